@@ -51,6 +51,9 @@ CHECKS = {
  "C20": dict(level="exploration", design="§3 C20",
    technique="exhaustive enumeration of all strings up to length 4 over a 10-symbol alphabet (plus targeted strings) x protocol ids against a canonical-uint32 reference; thorough enumerates all 2^32 domains; dynamic pause-then-probe on the full application",
    text="For all 11111 strings of length <=4 over {0,1,9,+,-,space,:,a,.,_} plus ~60 targeted strings and protocol ids -1..5: accepted pairs round-trip through ID/ParseCrossChainID, no two accepted pairs share a textual form, CCTP/Hyperlane accept exactly the canonical decimal uint32 strings, constructor/validation/pause message/query/genesis validation accept the same set, the attribute types produce exactly the canonical string (2000+boundary domains; thorough all 2^32), and every accepted CCTP/Hyperlane string that names a routable domain, once paused through the real message, makes the transfer to that domain refused."),
+ "C14": dict(level="exploration", design="§3 C14",
+   technique="bounded-exhaustive input enumeration with a JSON tree mutator (all single-point mutations; thorough: all pairs) and packet-field menus, delivered to the real transfer stack under recover() from 4 states",
+   text="14 seed payloads (every forwarding type x fee shapes, all optional fields) x all ~11000 single-point structural mutations (null/absent/wrong type at every position, null list elements, duplicate and renamed members, unknown siblings, type-URL and enum swaps, byte lengths, integer spellings, out-of-range numbers; thorough: all pairs on W0) plus packet-level menus (denom x amount, receiver x sender encodings, channel identifiers, degenerate and huge memos, all byte strings up to length 2 over 12 symbols), each on W0 and three non-initial states (statistics totals next to 2^256, pauses, deposits+history): no panic, never a nil acknowledgement, and a success acknowledgement only for payloads that are well-formed by the descriptor-driven reference predicate."),
 }
 
 NOT_YET = {}
